@@ -1,8 +1,10 @@
-"""C06: connection-level check (see DESIGN section 6 / C06): scenario families on the real endpoints, recorded traces
+"""C06: (1) Source.tla - the library's own stream sources as publishers in isolation, model-checked and every transition
+replayed on the real publisher classes (vf/props/sourcemodel.py); (2) connection-level check (see DESIGN section 6 / C06): scenario families on the real endpoints, recorded traces
 validated against RSocket.tla by TLC; design-level model checking of the same monitors in RSocketMC.tla."""
-from . import conn, families, mc
+from . import conn, families, mc, sourcemodel
 
 
 def run(v):
+    sourcemodel.check(v, 'C06')
     mc.run_for(v, 'C06')
     conn.check(v, 'C06', families.FAMILIES['C06'])
